@@ -12,6 +12,12 @@ checks = {
  "C02": dict(cat="exploration", tech="deterministic simulation + independent JA4 reference model + metamorphic twins (permutation / GREASE)",
    text="Same world as C01; X-JA4-Fingerprint compared with an independent JA4 reference (FoxIO text) and, independently of the reference, between twin clients whose hellos differ only by cipher/extension permutation and GREASE insertion/alteration.",
    note="Where the text leaves a choice (1-byte / non-alphanumeric ALPN, empty lists) the reference accepts every reading. Trusts refhello and utls as generator.", ref="7/C02"),
+ "C03": dict(cat="exploration", tech="deterministic simulation; raw-frame HTTP/2 client; prefix-set oracle from an independent fingerprint model",
+   text="A scripted raw-frame client (own frame codec) drives the real forked HTTP/2 server through TLS; the controller decides how the frames reach the server relative to the handlers (yielding injector, fences in readFrames/sendServeMsg); X-HTTP2-Fingerprint at the back-end must equal the reference fingerprint of some prefix of the client's frame history between the request's own HEADERS and the frames written before the back-end saw it; every value of the priority-frame limit through the real flag; no fingerprint on HTTP/1.1 connections.",
+   note="Generator stays inside sequences the server accepts (distinct SETTINGS ids: the server deliberately hangs up on duplicates). WU compared numerically except the absent case. Upper bound of the admissible prefix set is 'frames written', a sound over-approximation of 'frames processed'.", ref="7/C03"),
+ "C07": dict(cat="exploration", tech="deterministic simulation (handlers parked at a yielding injector while frames arrive) + race detector inside single-quantum coalesced runs",
+   text="(a) snapshot clause: up to 8 concurrently open streams whose handlers are parked before the real injector while further SETTINGS/WINDOW_UPDATE/PRIORITY/HEADERS arrive one TLS write at a time, released in any order; each fingerprint must be the fingerprint of one prefix in the request's interval (single sequential writer: linearizability of the reads reduces to interval membership, so porcupine is not needed). (b) race clause: a -race build of the same worker runs the sessions coalesced into one delivery without fences so capture and Marshal fall into one quantum where the detector sees them; reports whose stacks touch processFrame capture / metadata / fingerprint count.",
+   note="Cooperative scheduling cannot create a schedule point between the two field updates of one HEADERS-with-priority capture; only the race detector speaks to tearing inside one capture. Race runs are not replayable as schedules (the -race runtime randomises the scheduler); the report itself is the artefact.", ref="7/C07"),
  "C05": dict(cat="exploration", tech="deterministic simulation; unique client tokens tracked to the recording back-end",
    text="Requests carry unique client tokens under every configured fingerprint header name (random case, repeated) on both protocols, for every injector outcome (value / empty / error) and injector set; no token may reach the recording back-end and at most one value per name may arrive.",
    note="Injector outcomes for custom injectors are scripted; default injectors are the real ones.", ref="7/C05"),
